@@ -1,6 +1,15 @@
 """C09 obligation "twins": the byte and string variants are the same text up to the []byte/string
-renaming, except for the one expected residual (StepString's single-rune early return)."""
-import json, os
+renaming, except for the one expected residual (StepString's single-rune early return).
+
+The translator folds constant expressions to their values before diffing (so that a mask that differs
+between the twins shows up as extra residual lines, however it is spelled); the residual is compared
+with the committed expectation modulo the integer literals themselves (so that respelling a constant
+expression as a named constant, or renumbering constants consistently in both twins, changes nothing)."""
+import json, os, re
+
+
+def shape(lines):
+    return [re.sub(r"\b\d+\b", "K", l) for l in (lines or [])]
 
 
 def run(ctx, ob):
@@ -9,8 +18,8 @@ def run(ctx, ob):
     bad = []
     for p in f["twins"]["pairs"]:
         key = p["bytes"] + "/" + p["string"]
-        if p["residual"] != exp.get(key):
+        if shape(p["residual"]) != shape(exp.get(key)):
             bad.append({"pair": key, "residual": p["residual"][:30], "expected": (exp.get(key) or [])[:30]})
-    ob.add("twins: each string-typed function is its byte-slice twin up to the []byte/string renaming (residual diff of the normalised ASTs = the expected StepString early return only)",
+    ob.add("twins: each string-typed function is its byte-slice twin up to the []byte/string renaming (residual diff of the normalised, constant-folded ASTs = the expected StepString early return only)",
            not bad, json.dumps(bad, indent=1), "correspondence")
     return [], {"twin_pairs": len(f["twins"]["pairs"])}
